@@ -109,6 +109,16 @@ def programs(rng, thorough):
     # --- deep recursion just under the stack limit, returning nested values
     for d in [900, 999, 1000, 1001]:
         add("recursion-depth-%d" % d, "fun f(n: Int) { if n == 0 { [] } else { [f(n - 1)] } }", "string_repr(f(%d)).len()" % d)
+    # --- limits must still bind AFTER an earlier item of the same run has already hit them (playground-run runs the
+    # tests of the file, records their errors and goes on with the toplevel expressions on the same evaluator)
+    seqs = [("loop-loop", "", "while True {}", "let i = 0\nwhile True { i += 1 }"),
+            ("loop-recursion", "fun f(n: Int): Int { f(n + 1) }", "while True {}", "f(0)"),
+            ("recursion-loop", "fun f(n: Int): Int { 1 + f(n + 1) }", "f(0)", "while True { 1 }"),
+            ("recursion-recursion", "fun f(n: Int): Int { 1 + f(n + 1) }\nfun g(n: Int): Int { g(n + 1) }", "f(0)", "g(0)"),
+            ("two-tests-loop", "", "while True {}\n}\ntest t1 {\nlet j = 0\nwhile True { j += 1 }", "while True {}"),
+            ("passing-test-loop", "", "assert(1 == 1)", "while True {}")]
+    for lab, defs, tbody, top in seqs:
+        add("seq-" + lab, defs + "\ntest t0 {\n" + tbody + "\n}\n", top)
     # --- terminating controls (the harness must accept them)
     add("control-terminates", "", "let i = 0\nwhile i < 100 { i += 1 }\ni", False)
     add("control-error", "", "1 / 0", False)
@@ -219,7 +229,8 @@ def run(ctx):
         return
     progs = programs(ctx.rng, ctx.thorough)
     timeout = 120 if ctx.thorough else 60
-    jobs = [(lab, mode, defs, body, nt) for (lab, defs, body, nt) in progs for mode in ("playground", "sandboxed-test")]
+    jobs = [(lab, mode, defs, body, nt) for (lab, defs, body, nt) in progs for mode in ("playground", "sandboxed-test")
+            if not (lab.startswith("seq-") and mode != "playground")]      # seq-* programs have test items of their own
     ctx.log("running %d sandboxed programs under a %ds timeout" % (len(jobs), timeout))
     with concurrent.futures.ThreadPoolExecutor(max(2, common.NCPU // 2)) as ex:
         obs = list(ex.map(lambda j: run_one(exe, j[1], j[2], j[3], timeout), jobs))
